@@ -601,6 +601,10 @@ func (c *compiler) arrayOperator(l interface{}, r interface{}, op string) (inter
 	var err error
 	switch op {
 	case "+":
+		if reflect.TypeOf(l).Kind() != reflect.Slice {
+			return nil, fmt.Errorf("cannot append to %T: not a slice", l)
+		}
+
 		elemType := reflect.TypeOf(l).Elem()
 		if elemType.Kind() != reflect.Interface {
 			t := reflect.ValueOf(r).Type()
